@@ -155,7 +155,15 @@ def main(tier, seed, replay=None):
     # include cycles: a manifest that includes itself, directly or through another file
     cyc = [(b"include build.ninja\n", {b"build.ninja": b"include build.ninja\n"}),
            (b"rule r\n  command = c\nsubninja a.ninja\n", {b"a.ninja": b"build x: r\ninclude b.ninja\n", b"b.ninja": b"subninja a.ninja\n"}),
-           (b"include a.ninja\n", {b"a.ninja": b"include a.ninja\n"})]
+           (b"include a.ninja\n", {b"a.ninja": b"include a.ninja\n"}),
+           # cycles of two and three files with no build statement on the cycle (nothing else would stop the recursion),
+           # through include, subninja and both; through the top-level manifest; in a subdirectory
+           (b"include a.ninja\n", {b"a.ninja": b"include b.ninja\n", b"b.ninja": b"include a.ninja\n"}),
+           (b"subninja a.ninja\n", {b"a.ninja": b"subninja b.ninja\n", b"b.ninja": b"subninja a.ninja\n"}),
+           (b"x = 1\ninclude a.ninja\n", {b"a.ninja": b"y = 2\nsubninja b.ninja\n", b"b.ninja": b"z = 3\ninclude c.ninja\n", b"c.ninja": b"include a.ninja\n"}),
+           (b"subninja sub/rules.ninja\n", {b"sub/rules.ninja": b"include build.ninja\n"}),
+           (b"include a.ninja\ninclude a.ninja\n", {b"a.ninja": b"include b.ninja\n", b"b.ninja": b"v = 1\n"}),          # a diamond, not a cycle
+           (b"include a.ninja\n", {b"a.ninja": b"include ./b.ninja\n", b"b.ninja": b"include x/../a.ninja\n"})]
     for text, fs in cyc:
         cases.append(text)
         h_lines.append("%s %s %s" % (hexs(b"build.ninja"), hexs(text), " ".join("%s %s" % (hexs(k), hexs(v)) for k, v in fs.items())))
